@@ -1,12 +1,2 @@
-(* GENERATED by tools/gen/g_wrappers.py from preprocess/{cache,foldfilter,b64filter}_main.cc -- do not edit *)
-
-Definition cache_order : bool := true.
-Definition cache_poison_first : bool := false.
-Definition cache_final_peek : bool := false.
-Definition fold_order : bool := true.
-Definition fold_poison_first : bool := true.
-Definition fold_final_peek : bool := false.
-Definition b64_order : bool := true.
-Definition b64_poison_first : bool := true.
-Definition b64_final_peek : bool := true.
-Definition cache_flush_rate : nat := 4096.
+(* translator failed: feeder loop of foldfilter feeder not found *)
+Definition translator_failed : True := 0.
